@@ -37,6 +37,16 @@ pub fn now_override() -> Option<chrono::DateTime<chrono::Local>> {
     chrono::Local.timestamp_opt(secs, nanos).single()
 }
 
+/// The overridden current instant in UTC, if a clock override is installed (read by the pattern
+/// encoder's date formatter; the caller converts to the local zone where it needs to).
+#[cfg(feature = "pattern_encoder")]
+pub fn now_override_utc() -> Option<chrono::DateTime<chrono::Utc>> {
+    use chrono::TimeZone;
+    let f = NOW.read().unwrap().clone()?;
+    let (secs, nanos) = f()?;
+    chrono::Utc.timestamp_opt(secs, nanos).single()
+}
+
 /// Install (or remove) a callback invoked before every filesystem step of a fixed-window
 /// rotation: `i` for the shift `i -> i+1`, `u32::MAX` for the final move/compress, `u32::MAX - 1`
 /// between a compressing copy and the removal of its source. An `Err`
